@@ -2,6 +2,7 @@ import Ucan.Driver.Command
 import Ucan.Driver.Glob
 import Ucan.Driver.Selector
 import Ucan.Driver.Policy
+import Ucan.Driver.Chain
 /-!
 Line-protocol driver: one case per input line, one canonical answer per output line.
 Imports models and specs only (core Lean), never lemmas or property files.
@@ -17,6 +18,7 @@ def dispatch (toks : List String) : String :=
       else if t.startsWith "glob." then runGlob toks
       else if t.startsWith "sel." then runSelector toks
       else if t.startsWith "pol." then runPolicy toks
+      else if t.startsWith "chain." then runChain toks
       else none
   match r with
   | some s => s
